@@ -20,7 +20,7 @@ import time
 sys.path.insert(0, os.path.join(os.path.dirname(os.path.abspath(__file__)), "impl"))
 import c14_space as S  # noqa: E402
 import c14  # noqa: E402
-from c14 import (SIG_SUB_ORDER, SIG_UNSUB_TOPIC, Tally, enc_kind2, ensure_runner, mon_kip54,  # noqa: E402
+from c14 import (SIG_SUB_ORDER, SIG_UNSUB_TOPIC, Tally, viol, enc_kind2, ensure_runner, mon_kip54,  # noqa: E402
                  mon_valid, run_coq, run_ocaml, settle, split_jobs, triples_of_out)
 from common import NPROC, VERIF, Check, run_impl  # noqa: E402
 
@@ -63,7 +63,7 @@ def check_round_pair(ck, kind, case1, out1, case2, out2, tally, origin, extra=No
         if owner_map(out1) != owner_map(out2):
             chg = [(tp, o, owner_map(out2).get(tp)) for tp, o in owner_map(out1).items()
                    if owner_map(out2).get(tp) != o]
-            ck.violation(f"unchanged input, but the sticky assignor changed its assignment: {chg[:3]}",
+            viol(ck, f"unchanged input, but the sticky assignor changed its assignment: {chg[:3]}",
                          dict(rp, changed=chg[:10]),
                          signature=f"sticky-unchanged:{S.case_key(case2)}"[:200])
         return
@@ -78,7 +78,7 @@ def check_round_pair(ck, kind, case1, out1, case2, out2, tally, origin, extra=No
     mv = moved_between(keep, out1, out2)
     if mv:
         sig = classify(case2)
-        ck.violation(f"identical subscriptions, members {'left' if kind == 'minus' else 'joined'}: "
+        viol(ck, f"identical subscriptions, members {'left' if kind == 'minus' else 'joined'}: "
                      f"partition {mv[0][0]}-{mv[0][1]} moved {what} ({mv[0][2]} -> {mv[0][3]})",
                      dict(rp, moved=mv[:10]),
                      signature=sig or f"sticky-{kind}:{S.case_key(case2)}"[:200])
@@ -91,13 +91,13 @@ def check_round_pair(ck, kind, case1, out1, case2, out2, tally, origin, extra=No
 
 def second_valid(ck, case2, st2, origin, tally):
     if "exc" in st2:
-        ck.violation(f"sticky assign() raised {st2['exc']} on a second round",
+        viol(ck, f"sticky assign() raised {st2['exc']} on a second round",
                      {"origin": origin, "case": case2, "real": st2},
                      signature=f"sticky-crash-second:{S.case_key(case2)}"[:200])
         return False
     bad = mon_valid(case2, st2["out"]) + mon_kip54(case2, st2["out"])
     if bad:
-        ck.violation(f"second-round result violates C14: {bad[0]}",
+        viol(ck, f"second-round result violates C14: {bad[0]}",
                      {"origin": origin, "case": case2, "real": st2["out"], "flaws": bad[:5]},
                      signature=f"sticky-second-invalid:{S.case_key(case2)}"[:200])
         return False
@@ -253,7 +253,7 @@ def run(ck: Check):
                     n_first += 1
                     st1 = pr["first"]
                     if "exc" in st1:
-                        ck.violation(f"sticky assign() raised {st1['exc']}", {"case": case, "real": st1},
+                        viol(ck, f"sticky assign() raised {st1['exc']}", {"case": case, "real": st1},
                                      signature=f"sticky-crash:{S.case_key(case)}"[:200])
                         continue
                     for (kind, members2, arg), st2 in zip(S.second_rounds(case), pr["second"]):
@@ -307,6 +307,10 @@ def run(ck: Check):
         steps = chain_steps(rng, first, rng.randint(1, 4), order_noise=(mode == 2), keep_identical=(mode != 3))
         chains.append({"first": first, "steps": steps})
     ck.log(f"chains: {len(chains)} ({len(chains) - n_chains} exhaustive two-step, {n_chains} random)")
+    # only every few chains record the op log and go through the (costlier) model side
+    every = ck.n(8, 40)
+    for idx, ch in enumerate(chains):
+        ch["log"] = int(idx % every == 0)
     jobs = [chains[i::NPROC] for i in range(NPROC)]
     t0 = time.time()
     res = run_impl("c14_impl.py", {"jobs": [{"kind": "chains", "chains": j} for j in jobs], "procs": NPROC},
@@ -317,10 +321,6 @@ def run(ck: Check):
         for ci, rounds in enumerate(r):
             idx = ci * NPROC + ji
             origin = "two-step-exhaustive" if idx < len(chains) - n_chains else "random-chain"
-            # only every few chains go through the (costlier) model side
-            if (idx % ck.n(8, 20)) != 0:
-                for rd in rounds:
-                    rd["sticky"].pop("init", None)
             check_chain(ck, rounds, tally, streams, origin)
             n_rounds += len(rounds)
     ck.extra["chain_rounds"] = n_rounds
